@@ -51,6 +51,9 @@ let handle ws = try (match ws with
     let (i, s) = (match op with
       | "neg" -> (fneg x, Z.opp x) | "dbl" -> (fdbl x, Z.mul (z_of_small 2) x)
       | "tri" -> (ftri x, Z.mul (z_of_small 3) x) | "haf" -> (fhaf x, Z.mul x inv2)
+      | "tomont" -> (zmodp (Z.mul x r256), Z.mul x r256)
+      | "frommont" -> (fmont x (z_of_small 1), Z.mul x rinv)
+      | "montsqr" -> (fmont x x, Z.mul (Z.mul x x) rinv)
       | "montinv" -> (zmodp (Z.mul (finv (zmodp (Z.mul x rinv))) r256), Z.mul (sfinv (Z.mul x rinv)) r256)
       | _ -> failwith "op") in
     fpout i s
@@ -70,6 +73,7 @@ let handle ws = try (match ws with
      | "sqr" -> o2 (i2sqr x) (s2mul x x) | "squ" -> o2 (i2sqr_u x) (s2mul s2u (s2mul x x))
      | "inv" -> o2 (i2inv x) (s2inv x) | "amulu" -> o2 (i2a_mul_u x) (s2mul s2u x)
      | "conj" -> o2 (i2conj x) (s2conj x)
+     | "frob" -> o2 (i2conj x) (s2cj (z_of_small 1) x)
      | _ -> "ERR bad-op")
   | ["fp2"; "mulfp"; a; k] -> let x = t2_of a and kk = fp_of k in o2 (i2mul_fp x kk) (s2scale kk x)
   | ["fp2"; op; a; b] ->
@@ -138,8 +142,59 @@ let handle ws = try (match ws with
     let x = zhex a and y = zhex b in
     let i = modn_sub x y and s = Z.modulo (Z.sub x y) nord in
     if i = s then hexz s else hexz s ^ " IMPLMODEL=" ^ hexz i
-  | ["modn"; "mul"; a; b] -> hexz (Z.modulo (Z.mul (zhex a) (zhex b)) nord)
-  | ["modn"; "inv"; a] -> hexz (zpowmod (zhex a) (Z.sub nord (z_of_small 2)) nord)
+  | ["modn"; "mul"; a; b] ->
+    let x = zhex a and y = zhex b in
+    let s = Z.modulo (Z.mul x y) nord in
+    if Z.ltb x nord && Z.ltb y nord then (let i = modn_mul x y in if i = s then hexz s else hexz s ^ " IMPLMODEL=" ^ hexz i) else hexz s
+  | ["modn"; "inv"; a] ->
+    let x = zhex a in let s = zpowmod x (Z.sub nord (z_of_small 2)) nord in
+    let i = modn_inv x in if i = s then hexz s else hexz s ^ " IMPLMODEL=" ^ hexz i
+  | ["t2"; id; hid; k] ->
+    let h1 = sm9_hash1_impl (bytes_of_hex id) (n_of_int (int_of_string hid)) in
+    (match extract_t2 h1 (zhex k) with Some t -> hexz t | None -> "NONE")
+  (* ---- Jacobian formulas *)
+  | ["jm"; "g1"; "mul"; k; x; y; z] ->
+    let ((a, b), cc) = j1mul (zhex k) ((fp_of x, fp_of y), fp_of z) in hexz (zmodp a) ^ " " ^ hexz (zmodp b) ^ " " ^ hexz (zmodp cc)
+  | "jm" :: "g1" :: op :: args ->
+    let c = List.map fp_of args in
+    let pj (x, y, z) = hexz (zmodp x) ^ " " ^ hexz (zmodp y) ^ " " ^ hexz (zmodp z) in
+    let b01 b = if b then "1" else "0" in
+    (match op, c with
+     | "dbl", [x; y; z] -> pj (let ((a, b), cc) = j1dbl ((x, y), z) in (a, b, cc))
+     | "neg", [x; y; z] -> pj (let ((a, b), cc) = j1neg ((x, y), z) in (a, b, cc))
+     | "add", [x; y; z; x2; y2; z2] -> pj (let ((a, b), cc) = j1add ((x, y), z) ((x2, y2), z2) in (a, b, cc))
+     | "sub", [x; y; z; x2; y2; z2] -> pj (let ((a, b), cc) = j1sub ((x, y), z) ((x2, y2), z2) in (a, b, cc))
+     | "addaff", [x; y; z; x2; y2] -> pj (let ((a, b), cc) = j1add_affine ((x, y), z) (x2, y2) in (a, b, cc))
+     | "oncurve", [x; y; z] -> b01 (j1on_curve ((x, y), z))
+     | "equ", [x; y; z; x2; y2; z2] -> b01 (j1equ ((x, y), z) ((x2, y2), z2))
+     | _ -> "ERR bad-op")
+  | "jm" :: "g2" :: op :: args ->
+    let pj ((x, y), z) = h2 (canon2 x) ^ " " ^ h2 (canon2 y) ^ " " ^ h2 (canon2 z) in
+    let b01 b = if b then "1" else "0" in
+    (match op, args with
+     | "mul", [k; x; y; z] -> pj (j2mul (zhex k) ((t2_of x, t2_of y), t2_of z))
+     | _, _ ->
+       let c = List.map t2_of args in
+       (match op, c with
+        | "dbl", [x; y; z] -> pj (j2dbl ((x, y), z))
+        | "neg", [x; y; z] -> pj (j2neg ((x, y), z))
+        | "add", [x; y; z; x2; y2; z2] -> pj (j2add ((x, y), z) ((x2, y2), z2))
+        | "addfull", [x; y; z; x2; y2; z2] -> pj (j2add_full ((x, y), z) ((x2, y2), z2))
+        | "sub", [x; y; z; x2; y2; z2] -> pj (j2sub ((x, y), z) ((x2, y2), z2))
+        | "oncurve", [x; y; z] -> b01 (j2on_curve ((x, y), z))
+        | _ -> "ERR bad-op"))
+  | ["z256"; "booth"; k; w; i] ->
+    let v = booth (zhex k) (z_of_small (int_of_string w)) (z_of_small (int_of_string i)) in string_of_int (int_of_z v)
+  | ["z256"; "add"; a; b] -> let s = Z.add (zhex a) (zhex b) in (if Z.ltb s r256 then "0 " else "1 ") ^ hexz (Z.modulo s r256)
+  | ["z256"; "sub"; a; b] -> let s = Z.sub (zhex a) (zhex b) in (if Z.ltb s Z0 then "1 " else "0 ") ^ hexz (Z.modulo s r256)
+  | ["z256"; "mul"; a; b] -> hex_of_bigz ~width:128 (Z.mul (zhex a) (zhex b))
+  | ["z256"; "cmp"; a; b] -> let x = zhex a and y = zhex b in if Z.ltb x y then "-1" else if x = y then "0" else "1"
+  | ["z256"; "equ"; a; b] -> if zhex a = zhex b then "1" else "0"
+  | ["z256"; "iszero"; a] -> if zhex a = Z0 then "1" else "0"
+  | ["z256"; "bits"; a] -> hexz (zhex a)
+  | ["z256"; "cmov"; a; b; m] -> if m = "0" then hexz (zhex a) else hexz (zhex b)
+  | ["z256"; "hex"; a] -> String.lowercase_ascii a ^ " 1 1 " ^ String.lowercase_ascii a
+  | ["hexrt"; ("fp2" | "fp4" | "fp12"); a] -> String.lowercase_ascii a
   | ["fromhash"; ha] ->
     if String.length ha <> 80 then "ERR" else
     let z = zhex ha in
